@@ -52,6 +52,7 @@ def configure(live_ids, tier, opts):
 
 def _prof():
     return docs.profile(max_schemas=4, max_props=4, max_ops=3, max_depth=2, desc=False, component_unions=False, affix_names=True, prefix_items=True,
+                        const_everywhere=True,
                         multi_body_multipart=False, multi_body_array=False, const_float="KF-C11-03" not in _live)
 
 
@@ -108,6 +109,24 @@ def raw_doc(draw):
     (ii) one component union used by a parameter and by model properties / array items / a response with other requiredness."""
     from . import c15
 
+    if draw(st.integers(0, 3)) == 0:
+        # (iv) parameters of the shapes the generated documents never give them: objects and models in the query (optional and
+        # required), arrays of enums, unions, nullable scalars; optional and required headers and cookies
+        shapes = {"model": {"$ref": "#/components/schemas/Filter"}, "inline_object": {"type": "object", "properties": {"colour": {"type": "string"}}},
+                  "enum_array": {"type": "array", "items": {"type": "string", "enum": ["a", "b"]}}, "union": {"oneOf": [{"type": "integer"}, {"type": "string", "format": "date"}]},
+                  "nullable_int": {"type": "integer", "nullable": True}, "date": {"type": "string", "format": "date"},
+                  "model_array": {"type": "array", "items": {"$ref": "#/components/schemas/Filter"}}, "any": {}}
+        params = []
+        for k_p, key in enumerate(draw(st.lists(st.sampled_from(sorted(shapes)), min_size=2, max_size=5))):
+            params.append({"name": f"q{k_p}{key}", "in": "query", "schema": shapes[key], **({"required": True} if draw(st.booleans()) else {})})
+        for k_p, (loc, sch) in enumerate(draw(st.lists(st.sampled_from([("header", {"type": "integer"}), ("header", {"type": "boolean"}),
+                                                                        ("header", {"type": "string", "enum": ["x", "y"]}), ("cookie", {"type": "string"}),
+                                                                        ("cookie", {"type": "string", "enum": ["x", "y"]})]), max_size=3))):
+            params.append({"name": f"X-H{k_p}" if loc == "header" else f"c{k_p}", "in": loc, "schema": sch, **({"required": True} if draw(st.booleans()) else {})})
+        doc = {"openapi": "3.0.3", "info": {"title": "t", "version": "1"},
+               "paths": {"/search": {"get": {"operationId": "searchThings", "parameters": params, "responses": {"200": {"description": "ok"}}}}},
+               "components": {"schemas": {"Filter": {"type": "object", "properties": {"colour": {"type": "string"}, "in-stock": {"type": "boolean"}}}}}}
+        return {"raw": doc, "tag": "param_shapes:" + "+".join(p["name"] for p in params)[:60], "literal": draw(st.booleans())}
     if draw(st.integers(0, 2)) == 0:
         # (iii) responses that list several media types, with and without schemas, in every order: decode source and schema must
         # come from the same entry
